@@ -242,7 +242,7 @@ def fam_functions(tier):
     out.append(("function-protected", Model("M", mdecls, call1, funcs=[Func("f", [u], [y], [t], [("assign", V("t"), B("*", V("u"), V("u"))), ("assign", V("y"), B("-", V("t"), V("u")))])])))
     # two inputs, several outputs
     md2 = [Decl("r"), Decl("q"), Decl("c"), Decl("e")]
-    f2 = Func("g", [u, w], [y, z], [], [("assign", V("y"), B("+", V("u"), V("w"))), ("assign", V("z"), B("*", V("u"), V("w")))])
+    f2 = Func("g", [u, w], [y, z], [], [("assign", V("y"), B("-", V("u"), B("*", N(2), V("w")))), ("assign", V("z"), B("+", B("*", V("u"), V("w")), V("u")))])
     out.append(("function-multi-output", Model("M", md2, [("eq", ("tuple", (V("c"), V("e"))), ("call", "g", (V("r"), V("q"))))], funcs=[f2])))
     out.append(("function-in-expression", Model("M", md2, [("eq", V("c"), B("+", ("call", "f", (V("r"),)), ("call", "f", (V("q"),))))], funcs=[Func("f", [u], [y], [], [assigns[0]])])))
     if3 = ("ifst", [(B(">", V("u"), N(1)), [("assign", V("y"), N(1)), ("assign", V("z"), N(10))])], [("assign", V("y"), N(2)), ("assign", V("z"), V("u"))])
